@@ -70,7 +70,7 @@ func drawC10(t *rapid.T) Case {
 
 func (c *C10Case) value() *cat.SBox {
 	s := func(i int) string { return c.Seed[i%len(c.Seed)] + fmt.Sprint(i) }
-	b := &cat.SBox{Before: s(0), V: cat.SVal{A: 1, S: s(1)}, P: &cat.SVal{A: 2, S: s(2)}, T: cat.SKey{K: s(3)}, Q: &cat.SPtr{N: 21}, M: map[cat.SKey]cat.SVal{}, Tail: map[string]*string{}}
+	b := &cat.SBox{Before: s(0), V: cat.SVal{A: 1, S: s(1)}, P: &cat.SVal{A: 2, S: s(2)}, T: cat.SKey{K: s(3)}, Q: &cat.SPtr{N: 21}, M: map[cat.SKey]cat.SVal{}, Tail: map[string]*string{}, Z: cat.SVal{A: 99, S: s(4)}, ZP: &cat.SPtr{N: 7}, ZS: "zs" + s(5)}
 	for i := 0; i < c.N; i++ {
 		b.L = append(b.L, cat.SVal{A: 10 + i, S: s(10 + i)})
 		b.M[cat.SKey{K: s(20 + i)}] = cat.SVal{A: 20 + i, S: s(30 + i)}
